@@ -89,8 +89,8 @@ let detail (o : 'a outcome) = match o with
   | Panicked (PFuel k) -> "fuel" ^ string_of_int (int_of_n k)
 
 let print_result (r : result) =
-  Printf.printf "%s out=%s pos=%d fl=%d why=%s\n" (verdict r.r_verdict) (hex_of_bytes r.r_out)
-    (int_of_n r.r_pos) (int_of_n r.r_flushes) (detail r.r_verdict)
+  Printf.printf "%s out=%s pos=%d fl=%d why=%s rc=%d wc=%d\n" (verdict r.r_verdict) (hex_of_bytes r.r_out)
+    (int_of_n r.r_pos) (int_of_n r.r_flushes) (detail r.r_verdict) (int_of_n r.r_refills) (int_of_n r.r_wcalls)
 
 (* ---- symbol programs:  L97.M3,5.S.R0,4.E ---- *)
 let sym_of (t : string) : sym =
@@ -240,15 +240,15 @@ let run_case (line : string) =
         Printf.printf "res=%s out=%s\n" (Buffer.contents b) (hex_of_bytes out)
     | "ref_lzma" ->
         let size = (match get kv "size" "none" with "none" -> n_of_decimal "18446744073709551615" | s -> n_of_decimal s) in
-        (match api_ref_lzma (fprops_of kv) (n_of_decimal (get kv "dict" "4096")) size (prog_of (get kv "prog" "-")) (n_of_decimal (get kv "delta" "0")) with
+        (match api_ref_lzma (get kv "lenient" "0" = "1") (fprops_of kv) (n_of_decimal (get kv "dict" "4096")) size (prog_of (get kv "prog" "-")) (n_of_decimal (get kv "delta" "0")) with
          | Some (bytes, out) -> Printf.printf "ok bytes=%s out=%s\n" (hex_of_bytes bytes) (hex_of_bytes out)
          | None -> print_endline "illformed")
     | "ref_payload" ->
-        (match api_ref_payload (fprops_of kv) (opt_n (get kv "window" "none")) (prog_of (get kv "prog" "-")) (n_of_decimal (get kv "delta" "0")) with
+        (match api_ref_payload (get kv "lenient" "0" = "1") (fprops_of kv) (opt_n (get kv "window" "none")) (prog_of (get kv "prog" "-")) (n_of_decimal (get kv "delta" "0")) with
          | Some (bytes, out) -> Printf.printf "ok bytes=%s out=%s\n" (hex_of_bytes bytes) (hex_of_bytes out)
          | None -> print_endline "illformed")
     | "ref_lzma2" ->
-        (match api_ref_lzma2 (List.map chunk_of (split_nonempty '/' (get kv "chunks" ""))) with
+        (match api_ref_lzma2 (get kv "lenient" "0" = "1") (List.map chunk_of (split_nonempty '/' (get kv "chunks" ""))) with
          | Some (bytes, out) -> Printf.printf "ok bytes=%s out=%s\n" (hex_of_bytes bytes) (hex_of_bytes out)
          | None -> print_endline "illformed")
     | "crc32" -> Printf.printf "ok v=%s\n" (decimal_of_n (api_crc32 (data ())))
